@@ -324,6 +324,69 @@ theorem C14_repaired_deduce_unnorm_ok :
       | .ok _ => true | .error _ => false) = true := by
   decide +kernel
 
+/-! ### C12: `comul` with subnormal base rates, binary64 and binary32 (before / after repair a66cfd4) -/
+
+/-- x = (1/4, 1/2, 1/4; a = 2^-1074), y = (1/8, 3/8, 1/2; a = 2^-1074): exactly well-formed, the base rates are the
+    smallest positive binary64 value -/
+def snX : BOp Float := ⟨0.25, 0.5, 0.25, fb 0x1⟩
+def snY : BOp Float := ⟨0.125, 0.375, 0.5, fb 0x1⟩
+/-- the same with the smallest positive binary32 value 2^-149 -/
+def snX32 : BOp Float32 := ⟨0.25, 0.5, 0.25, fb32 0x1⟩
+def snY32 : BOp Float32 := ⟨0.125, 0.375, 0.5, fb32 0x1⟩
+
+/-- C12 (after d46c983, before a66cfd4): with the base rates as factors of the numerators every product
+    `a_x (1 - a_y) d_x u_y`, .. underflows to 0 before the division by the (equally small) `a = a_x + a_y - a_x a_y`
+    restores the scale: the un-normalised masses are `(b, d_x d_y, u_x u_y)`, the renormalisation turns them into a
+    well-formed opinion -- the call is ACCEPTED -- with the belief `0.5238095238095238` (bits 0x3FE0C30C30C30C31) where
+    `b = b_x + b_y - b_x b_y = 0.34375` is required (`SLV.Props.C12.C12_comul_lift`); binary32 likewise: `0.52380955`. -/
+theorem C12_pinned_comul_subnormal_wrong :
+    ((match Pinned.comulNumerFirst snX snY with
+      | .ok r => decide (Float.toBits r.b = 0x3FE0C30C30C30C31) && decide (Float.toBits r.d = 0x3FD2492492492492)
+          && decide (Float.toBits r.u = 0x3FC8618618618618) && decide (r.b ≠ 0.34375)
+      | .error _ => false)
+     && (match Pinned.comulNumerFirst snX32 snY32 with
+      | .ok r => decide (r.b > 0.5238095) && decide (r.b < 0.5238096) && decide (r.b ≠ 0.34375)
+      | .error _ => false)) = true := by
+  decide +kernel
+
+/-- C12 (repaired model): the weights `a_x / a = a_y / a = 1/2` are formed first; the result is exactly
+    `(0.34375, 0.359375, 0.296875)` in binary64 and in binary32 -/
+theorem C12_repaired_comul_subnormal :
+    ((match BOp.comul snX snY with
+      | .ok r => decide (r.b = 0.34375) && decide (r.d = 0.359375) && decide (r.u = 0.296875)
+      | .error _ => false)
+     && (match BOp.comul snX32 snY32 with
+      | .ok r => decide (r.b = 0.34375) && decide (r.d = 0.359375) && decide (r.u = 0.296875)
+      | .error _ => false)) = true := by
+  decide +kernel
+
+/-! ### C14: binomial `deduce`, rounding residue of an exactly-zero disbelief, binary64 (before / after repair cf81fd9) -/
+
+/-- vacuous antecedent (0, 0, 1; a = 3/16), conditionals y|x = (0, 9/16, 7/16), y|¬x = (1/16, 0, 15/16), a_y = 3/16:
+    every operand is a dyadic rational, exactly well-formed.  Case III; the exact disbelief of the result is 0 -/
+def bzX : BOp Float := ⟨0.0, 0.0, 1.0, 0.1875⟩
+def bzC0 : Float × Float × Float := (0.0, 0.5625, 0.4375)
+def bzC1 : Float × Float × Float := (0.0625, 0.0, 0.9375)
+def bzAy : Float := 0.1875
+
+/-- C14 (after d46c983, before cf81fd9, binary64): `di` and `(1 - a_y) k` are two differently rounded evaluations of the
+    same product; the difference `-2^-56` is divided by `s` and returned as the disbelief `-1.3877787807814457e-17` (bits
+    0xBC70000000000000).  The constructor tolerates it (`|d| ≤ ε`): the call is ACCEPTED with a negative mass. -/
+theorem C14_pinned_bdeduce_negative_mass :
+    (match (Pinned.bdeduceNoClamp bzX bzC0 bzC1 bzAy).1 with
+      | .ok r => decide (Float.toBits r.d = 0xBC70000000000000) && decide (r.d < 0.0)
+          && decide (Float.toBits r.b = 0x3F9B13B13B13B13A) && decide (Float.toBits r.u = 0x3FEF276276276276)
+      | .error _ => false) = true := by
+  decide +kernel
+
+/-- C14 (repaired model, binary64): the same call returns the disbelief `+0` exactly, the other two masses unchanged -/
+theorem C14_repaired_bdeduce_nonneg :
+    (match (BOp.deduce bzX bzC0 bzC1 bzAy).1 with
+      | .ok r => decide (Float.toBits r.d = 0) && decide (r.b ≥ 0.0) && decide (r.u ≤ 1.0)
+          && decide (Float.toBits r.b = 0x3F9B13B13B13B13A) && decide (Float.toBits r.u = 0x3FEF276276276276)
+      | .error _ => false) = true := by
+  decide +kernel
+
 /-! ### C11: the property's own example, binary64 -/
 
 def s3 (a b c u : Float) : Simplex Float 3 := ⟨#v[a / 16.0, b / 16.0, c / 16.0], u / 16.0⟩
@@ -602,6 +665,81 @@ theorem C05_repaired_abduce_nonneg :
       | some w =>
         decide (Float.toBits w.b[0] = 0) && decide (w.b[1] ≥ 0.0) && decide (w.u ≥ 0.0)
           && (match Opinion.tryNew w.b w.u w.a with | .ok _ => true | .error _ => false)) = true := by
+  decide +kernel
+
+/-! ### C09 / C02: rounding residue of the zero mass of `uncertainty_maximized` (before / after repair 8520ade)
+
+`uncertainty_maximized` builds every mass as `p[i] - a[i]·û` with `û = min p/a`: the state that attains the minimum has
+mass exactly 0, but `p[i]` and `a[i]·û` round differently.  After repair f029db5 the residue was divided through by
+`Simplex::normalized` and returned; since 8520ade it is clamped at zero first. -/
+
+/-- dogmatic simplex `([0, 1], u = 0)` -/
+def bandS : Simplex Float 2 := ⟨#v[0.0, 1.0], 0.0⟩
+/-- `a = [ε, 1]`: entry 0 at the top of the zero band, sum `1 + ε` (exact), accepted by `check_base_rate` -/
+def bandA : Tab Float 2 := #v[feps, 1.0]
+def bandS32 : Simplex Float32 2 := ⟨#v[0.0, 1.0], 0.0⟩
+/-- the same with the binary32 `ε = 2^-23` -/
+def bandA32 : Tab Float32 2 := #v[fb32 0x34000000, 1.0]
+
+/-- the operand is accepted by `Opinion::try_new` (binary64 and binary32) -/
+theorem C09_pinned_band_operand_accepted :
+    ((match Opinion.tryNew bandS.b bandS.u bandA with | .ok _ => true | .error _ => false)
+      && (match Opinion.tryNew bandS32.b bandS32.u bandA32 with | .ok _ => true | .error _ => false)) = true := by
+  decide +kernel
+
+/-- C09 (after f029db5, before 8520ade; binary64 and binary32): `û = 1` (entry 0 is skipped by the `is_zero` guard), the
+    mass `0 - ε·1 = -ε` is divided by the total `1 - ε` and comes back as `-ε(1 + 2^-52)` (bits 0xBCB0000000000001, just
+    below the `-ε` the constructors accept) with `u' = 1 + 2^-52`: `Simplex::try_new` rejects the result with the
+    belief-mass error.  Binary32 likewise: bits 0xB4000001, `u' = 1 + 2^-23`. -/
+theorem C09_pinned_maximized_band_rejected :
+    ((let w := Pinned.uncertaintyMaximizedNoClamp bandS bandA
+      decide (Float.toBits w.b[0] = 0xBCB0000000000001) && decide (w.b[0] < -feps) && !(Scalar.isZero w.b[0])
+        && decide (Float.toBits w.b[1] = 0) && decide (Float.toBits w.u = 0x3FF0000000000001)
+        && isErr (Simplex.tryNew w.b w.u) .b)
+     && (let w := Pinned.uncertaintyMaximizedNoClamp bandS32 bandA32
+      decide (Float32.toBits w.b[0] = 0xB4000001) && !(Scalar.isZero w.b[0])
+        && decide (Float32.toBits w.u = 0x3F800001) && isErr (Simplex.tryNew w.b w.u) .b)) = true := by
+  decide +kernel
+
+/-- C09 (repaired model, binary64 and binary32): the same operands give the vacuous simplex, masses exactly `+0`, `u' = 1`;
+    accepted. -/
+theorem C09_repaired_maximized_band_accepted :
+    ((let w := Simplex.uncertaintyMaximized bandS bandA
+      decide (Float.toBits w.b[0] = 0) && decide (Float.toBits w.b[1] = 0) && decide (w.u == 1.0)
+        && (match Simplex.tryNew w.b w.u with | .ok _ => true | .error _ => false))
+     && (let w := Simplex.uncertaintyMaximized bandS32 bandA32
+      decide (Float32.toBits w.b[0] = 0) && decide (Float32.toBits w.b[1] = 0) && decide (w.u == 1.0)
+        && (match Simplex.tryNew w.b w.u with | .ok _ => true | .error _ => false))) = true := by
+  decide +kernel
+
+/-- vacuous opinion over `a = [0, 1]` -/
+def ecL : Opinion Float 2 := ⟨#v[0.0, 0.0], 1.0, #v[0.0, 1.0]⟩
+/-- `([1/8, 1/2], u = 3/8, a = [7/8, 1/8])`: exactly well-formed dyadic operand -/
+def ecR : Opinion Float 2 := ⟨#v[0.125, 0.5], 0.375, #v[0.875, 0.125]⟩
+
+/-- C02 (after f029db5, before 8520ade; binary64): epistemic cumulative fusion of two exactly well-formed dyadic
+    opinions, no band involved.  The fused base rate is `[7/8, 1/8]`, `û = (1/8 + 7/8·3/8)/(7/8) = 29/56`, and
+    `p[0] - a[0]·û`, exactly 0, is computed as `-2^-54 = -5.551115123125783e-17` (bits 0xBC90000000000000): a negative
+    belief mass (inside the `-ε` tolerance of the constructors, so accepted, but negative) in either operand order. -/
+theorem C02_pinned_ecm_negative_mass :
+    (let w := Pinned.fuseNoClamp .ecm false ecL ecR
+     let w' := Pinned.fuseNoClamp .ecm false ecR ecL
+     decide (Float.toBits w.b[0] = 0xBC90000000000000) && decide (w.b[0] < 0.0)
+       && decide (Float.toBits w'.b[0] = 0xBC90000000000000)
+       && decide (w.a[0] == 0.875) && decide (w.a[1] == 0.125)
+       && (match Opinion.tryNew ecL.b ecL.u ecL.a, Opinion.tryNew ecR.b ecR.u ecR.a with
+           | .ok _, .ok _ => true | _, _ => false)) = true := by
+  decide +kernel
+
+/-- C02 (repaired model, binary64): the same fusion returns `b[0] = +0` exactly, the other components unchanged
+    (`b[1] = 27/56`, `u = 29/56` to the last bit), and no component is negative. -/
+theorem C02_repaired_ecm_nonneg :
+    (let w := fuse .ecm false ecL ecR
+     let w0 := Pinned.fuseNoClamp .ecm false ecL ecR
+     decide (Float.toBits w.b[0] = 0) && decide (w.b[1] ≥ 0.0) && decide (w.u ≥ 0.0) && decide (w.u ≤ 1.0)
+       && decide (Float.toBits w.b[1] = Float.toBits w0.b[1]) && decide (Float.toBits w.u = Float.toBits w0.u)
+       && decide (Float.toBits (fuse .ecm false ecR ecL).b[0] = 0)
+       && (match Opinion.tryNew w.b w.u w.a with | .ok _ => true | .error _ => false)) = true := by
   decide +kernel
 
 end SLV.Props.Pinned
